@@ -33,7 +33,7 @@ def table():
     print("| id | breaks | what the change is | what it needs to manifest | which check catches it |")
     print("|---|---|---|---|---|")
     d = os.path.join(VERIF, "seeded")
-    for i in sorted(os.listdir(d)):
+    for i in sorted(os.listdir(d), key=lambda x: (int("".join(ch for ch in x.split("-")[0] if ch.isdigit()) or 0), x)):
         p = os.path.join(d, i, "meta.json")
         if not os.path.exists(p):
             continue
